@@ -214,12 +214,52 @@ pub async fn exec_c14(script: Value) -> ExecResult {
         let (vc, dg) = check_views(nn, &observers, &failed, isolate_mode, nkeys, "after the fault").await?;
         views_checked += vc;
         digest ^= dg;
+        // ---- rolling change: a failed node comes back while a live one goes away, close enough in time that one
+        // recomputation may see both (same number of live nodes, different positions) ----
+        if script["rolling"].as_bool().unwrap_or(false) && !failed.is_empty() && survivors.len() >= 2 {
+            let a = *rng.pick(&failed);
+            let b = *rng.pick(&survivors);
+            let off_ms = script["rolling_off_ms"].as_u64().unwrap_or(14_000);
+            if isolate_mode {
+                isolate(b, &all_ids);
+            } else {
+                kill_node(b).await;
+            }
+            sim::event(&format!("rolling: node {} goes away, node {} returns {} ms later", b, a, off_ms));
+            advance(off_ms).await;
+            if isolate_mode {
+                heal_all();
+                for f in failed.iter().filter(|f| **f != a) {
+                    isolate(*f, &all_ids);
+                }
+                isolate(b, &all_ids);
+            } else {
+                start_node(&root, a, a == 1, if a == 1 { None } else { Some(*survivors.iter().find(|x| **x != b).unwrap_or(&1)) }, &cfg.node).await.map_err(|e| Violation::new("harness.start", e.to_string()))?;
+            }
+            sim::count("probe.rolling_swap", 1);
+            advance(27_000).await;
+            let failed2: Vec<u64> = failed.iter().cloned().filter(|f| *f != a).chain(std::iter::once(b)).collect();
+            let obs2: Vec<u64> = if isolate_mode { all_ids.clone() } else { all_ids.iter().cloned().filter(|x| !failed2.contains(x)).collect() };
+            let (vc, dg) = check_views(nn, &obs2, &failed2, isolate_mode, nkeys, "after a rolling change (one node back, another gone)").await?;
+            views_checked += vc;
+            digest ^= dg;
+            // bring b back so that the recovery phase below starts from the original failed set minus a
+            if isolate_mode {
+                heal_all();
+                for f in failed.iter().filter(|f| **f != a) {
+                    isolate(*f, &all_ids);
+                }
+            } else {
+                start_node(&root, b, b == 1, if b == 1 { None } else { Some(a) }, &cfg.node).await.map_err(|e| Violation::new("harness.start", e.to_string()))?;
+            }
+            advance(5_000).await;
+        }
         // ---- recovery: the failed nodes come back, the full view must be restored ----
         if script["recover"].as_bool().unwrap_or(false) && !failed.is_empty() {
             for f in &failed {
                 if isolate_mode {
                     heal_all();
-                } else {
+                } else if node(*f).is_none() {
                     start_node(&root, *f, *f == 1, if *f == 1 { None } else { Some(survivors[0]) }, &cfg.node).await.map_err(|e| Violation::new("harness.start", e.to_string()))?;
                 }
             }
@@ -298,7 +338,10 @@ impl Check for C14 {
         cfg.node.snapshot_log_size = 10_000;
         cfg.node.naming_health_timeout = rng.range(3, 6) * 1000;
         cfg.node.naming_instance_timeout = cfg.node.naming_health_timeout + rng.range(5, 10) * 1000;
-        json!({"check": "C14", "seed": seed, "cfg": cfg, "failed_mask": mask, "isolate": isolate, "keys": 256, "behaviour": false, "recover": true, "steps": []})
+        // the offset of the rolling swap sweeps the window in which the 15 s liveness time-out of the node that went away
+        // and the first ping of the node that returns fall into the same 3 s check interval
+        let off = 11_000 + (seed.wrapping_mul(137) % 8_000);
+        json!({"check": "C14", "seed": seed, "cfg": cfg, "failed_mask": mask, "isolate": isolate, "keys": 256, "behaviour": false, "recover": true, "rolling": true, "rolling_off_ms": off, "steps": []})
     }
     fn execute(&self, script: Value) -> LocalFut<ExecResult> {
         Box::pin(exec_c14(script))
